@@ -1,12 +1,12 @@
 // E1 harness, injected as a child module of crates/parser/src/parser.rs (sees the private fields `fuel`,
 // `stuck_reported`, `diagnostics`).  Obligation O4.1 (/verif/DESIGN.md, C04): the parser's anti-hang mechanism.
 //
-//   fuel_step    one-step inductive form, from ANY reachable fuel state (fuel <= 256 symbolic, flag symbolic) over <= 3
-//                arbitrary tokens (kinds symbolic, trivia included): a `peek`/`nth(0)` with fuel left returns the real
-//                next non-trivia kind and costs exactly one unit; with no fuel left it returns `eof`, and pushes the
-//                "did not consume" diagnostic iff none was pushed in this streak; `advance` restores 256 and clears
-//                the flag.  Together with fuel_init (state after `Parser::new`) this implies, for every n, what
-//                fuel_streak checks by brute force for n <= 258.
+//   fuel_step_*  one-step inductive form, from ANY reachable fuel state (fuel <= 256 symbolic, flag symbolic) over <= 3
+//   fuel_advance arbitrary tokens (kinds symbolic, trivia included): a `peek`/`nth(0)` with fuel left returns the real
+//                next non-trivia kind and costs exactly one unit (fuel_step_live); with no fuel left it returns `eof`, and
+//                pushes the "did not consume" diagnostic iff none was pushed in this streak (fuel_step_dead); `advance`
+//                restores 256 and clears the flag (fuel_advance).  Together with fuel_init (state after `Parser::new`)
+//                this implies, for every n, what fuel_streak checks by brute force for n <= 258.
 //   fuel_streak  from `Parser::new` over <= 3 arbitrary tokens: n <= 258 consecutive calls, each symbolically `peek` or
 //                `nth(0)`: the first 256 return the real kind, later ones `eof`; exactly one diagnostic iff n > 256;
 //                then `advance`: fuel is back, flag cleared, the next `peek` sees the next token.
@@ -104,47 +104,71 @@ fn fuel_init() {
     std::mem::forget(p);
 }
 
+/// look-ahead while fuel is left: real kind, exactly one unit, no diagnostic
 #[kani::proof]
 #[kani::unwind(5)]
-fn fuel_step() {
+fn fuel_step_live() {
+    let (mut p, t) = any_parser();
+    let f: u32 = kani::any();
+    kani::assume(f >= 1 && f <= 256);
+    p.fuel.set(f); // reachable states with fuel left: the flag is clear (it is only ever set where the fuel is 0, and advance clears it)
+    let use_nth: bool = kani::any();
+    let got = if use_nth { p.nth(0) } else { p.peek() };
+    assert!(got == expected_kind(&t, 0), "O4.1 with fuel left the real next kind is returned");
+    assert!(p.fuel.get() == f - 1, "O4.1 a look-ahead costs exactly one unit");
+    assert!(p.diagnostics.len() == 0, "O4.1 no diagnostic while fuel is left");
+    assert!(!p.stuck_reported.get(), "O4.1 flag set although fuel was left");
+    kani::cover!(f == 256 && use_nth, "first nth of a streak");
+    kani::cover!(f == 1 && !use_nth, "last peek with fuel");
+    kani::cover!(got == TokenKind::Eof && t.n == MAXTOK, "only trivia in a full token list");
+    kani::cover!(t.n == MAXTOK && t.kinds[0].is_trivia() && t.kinds[1].is_trivia() && !t.kinds[2].is_trivia(), "two trivia tokens skipped");
+    std::mem::forget(p);
+}
+
+/// look-ahead without fuel: eof, and the "did not consume" diagnostic exactly once per streak
+#[kani::proof]
+#[kani::unwind(5)]
+fn fuel_step_dead() {
+    let (mut p, t) = any_parser();
+    let flag: bool = kani::any();
+    p.fuel.set(0);
+    p.stuck_reported.set(flag);
+    let use_nth: bool = kani::any();
+    let got = if use_nth { p.nth(0) } else { p.peek() };
+    assert!(got == TokenKind::Eof, "O4.1 without fuel the parser pretends end of file");
+    assert!(p.fuel.get() == 0, "O4.1 fuel changed although it was exhausted");
+    assert!(p.stuck_reported.get(), "O4.1 exhaustion is flagged");
+    assert!(p.diagnostics.len() == if flag { 0 } else { 1 }, "O4.1 exactly one diagnostic per streak");
+    assert!(p.diagnostics.has_errors() == !flag, "O4.1 the diagnostic is an error");
+    kani::cover!(!flag && use_nth, "exhaustion reported by nth");
+    kani::cover!(!flag && !use_nth, "exhaustion reported by peek");
+    kani::cover!(flag, "exhaustion already reported");
+    kani::cover!(t.n == MAXTOK && expected_kind(&t, 0) != TokenKind::Eof, "eof pretended although a token is there");
+    std::mem::forget(p);
+}
+
+/// advance restores the fuel and clears the flag from every state; the next look-ahead sees the next token
+#[kani::proof]
+#[kani::unwind(5)]
+fn fuel_advance() {
     let (mut p, t) = any_parser();
     let f: u32 = kani::any();
     kani::assume(f <= 256);
     let flag: bool = kani::any();
-    kani::assume(!flag || f == 0); // reachable states: the flag is only ever set when the fuel is gone
+    kani::assume(!flag || f == 0);
     p.fuel.set(f);
     p.stuck_reported.set(flag);
-    let use_nth: bool = kani::any();
-    let got = if use_nth { p.nth(0) } else { p.peek() };
-    if f > 0 {
-        assert!(got == expected_kind(&t, 0), "O4.1 with fuel left the real next kind is returned");
-        assert!(p.fuel.get() == f - 1, "O4.1 a look-ahead costs exactly one unit");
-        assert!(p.diagnostics.len() == 0, "O4.1 no diagnostic while fuel is left");
-        assert!(!p.stuck_reported.get());
-    } else {
-        assert!(got == TokenKind::Eof, "O4.1 without fuel the parser pretends end of file");
-        assert!(p.fuel.get() == 0);
-        assert!(p.stuck_reported.get(), "O4.1 exhaustion is flagged");
-        assert!(p.diagnostics.len() == if flag { 0 } else { 1 }, "O4.1 exactly one diagnostic per streak");
-        assert!(p.diagnostics.has_errors() == !flag);
-    }
-    kani::cover!(f == 256 && use_nth, "first nth of a streak");
-    kani::cover!(f == 1 && !use_nth, "last peek with fuel");
-    kani::cover!(f == 0 && !flag && use_nth, "exhaustion reported by nth");
-    kani::cover!(f == 0 && !flag && !use_nth, "exhaustion reported by peek");
-    kani::cover!(f == 0 && flag, "exhaustion already reported");
-    kani::cover!(f > 0 && got == TokenKind::Eof && t.n == MAXTOK, "only trivia in a full token list");
-    kani::cover!(f > 0 && t.n == MAXTOK && t.kinds[0].is_trivia() && t.kinds[1].is_trivia() && !t.kinds[2].is_trivia(), "two trivia tokens skipped");
-    // ---- advance restores the fuel and clears the flag, whatever the state
-    let events_before = p.events.len();
+    p.events.reserve(4);
     p.advance();
     assert!(p.fuel.get() == 256, "O4.1 advance restores the fuel");
     assert!(!p.stuck_reported.get(), "O4.1 advance clears the flag");
-    assert!(p.events.len() == events_before + 1);
+    assert!(p.events.len() == 1, "O4.1 advance records one event");
     let next = p.peek();
     assert!(next == expected_kind(&t, 1), "O4.1 after advance the next non-trivia token is seen");
     assert!(p.fuel.get() == 255);
     kani::cover!(next != TokenKind::Eof, "a second token after advance");
+    kani::cover!(flag, "advance after a reported exhaustion");
+    kani::cover!(f == 256 && t.n == 0, "advance at end of input with full fuel");
     std::mem::forget(p);
 }
 
